@@ -54,6 +54,7 @@ func newMultiHashPad() multiHashPad {
 		charToSize:  map[string]int{"#": 4, "@": 1},
 		defaultChar: "@",
 	}
+	padMap.fillKeys()
 
 	return multiHashPad{padMap}
 }
@@ -80,6 +81,7 @@ func newSingleHashPad() singleHashPad {
 		charToSize:  map[string]int{"#": 1, "@": 1},
 		defaultChar: "#",
 	}
+	padMap.fillKeys()
 
 	return singleHashPad{padMap}
 }
@@ -97,15 +99,18 @@ type paddingMap struct {
 	defaultChar string
 }
 
-func (m *paddingMap) AllChars() []string {
-	if m.cachedKeys == nil {
-		m.cachedKeys = make([]string, len(m.charToSize))
-		i := 0
-		for k := range m.charToSize {
-			m.cachedKeys[i] = k
-			i++
-		}
+// fillKeys prepares the list returned by AllChars. It is called once,
+// when the mapper is constructed, so that AllChars never writes to
+// state shared between goroutines.
+func (m *paddingMap) fillKeys() {
+	keys := make([]string, 0, len(m.charToSize))
+	for k := range m.charToSize {
+		keys = append(keys, k)
 	}
+	m.cachedKeys = keys
+}
+
+func (m *paddingMap) AllChars() []string {
 	return m.cachedKeys
 }
 
